@@ -92,6 +92,29 @@ pub fn eval(ctx: &mut Ctx, input: &[u8], sc: &Script, tag: &str) -> bool {
                 }
                 ctx.nontrivial(hash64(&w));
                 ctx.sample(|| J::obj().set("input", J::s(crate::util::printable(input))).set("script", J::s(sc.describe())).set("stream", J::s(format!("{:?}", &w[..w.len().min(30)]))));
+                // the same conformant stream presented as a printed symbol: error codewords and module placement by the
+                // crate, then the whole-symbol decoder (always for multi-block sizes, every 8th stream otherwise)
+                let h = hash64(&w);
+                let sizes: Vec<&crate::refimpl::cat::Row> = CAT.iter().filter(|r| r.data == w.len()).collect();
+                if sc.eci.is_none() && !sizes.is_empty() && (w.len() >= 204 || h % 8 == 0) {
+                    let r = sizes[(h >> 8) as usize % sizes.len()];
+                    let size = r.size;
+                    let res = guard(|| {
+                        let mut all = w.clone();
+                        all.extend(datamatrix::errorcode::encode_error(&w, size));
+                        let bm = datamatrix::placement::MatrixMap::<bool>::new_with_codewords(&all, size).bitmap();
+                        datamatrix::DataMatrix::decode(bm.bits(), bm.width())
+                    });
+                    match res {
+                        Err(p) => ctx.violation("decode_panic", &case(), format!("whole-symbol decode of {}: {}", r.name, p)),
+                        Ok(Err(e)) => ctx.violation("conformant_stream_rejected", &case(), format!("whole-symbol decode of {}: {:?} ; script {}", r.name, e, sc.describe())),
+                        Ok(Ok(out)) if out != want => ctx.violation("conformant_stream_misdecoded", &case(), format!("whole-symbol decode of {}: {} bytes, expected {} ; script {}", r.name, out.len(), want.len(), sc.describe())),
+                        Ok(Ok(_)) => {
+                            ctx.count("symbol_path.ok");
+                            ctx.count(&format!("symbol_path.blocks{}", r.blocks));
+                        }
+                    }
+                }
             }
         }
     }
